@@ -676,8 +676,10 @@ func twinPairs() [][2]int {
 // executor overlap pairwise.
 func TwinScenario(idx int, mode string) *Scenario {
 	pairs := twinPairs()
-	pr := pairs[idx%len(pairs)]
-	variant := idx / len(pairs)
+	// Pair-major numbering: the four variants of one (path, document) pair
+	// are neighbours, so one worker process meets the same path repeatedly.
+	pr := pairs[(idx/4)%len(pairs)]
+	variant := idx%4 + 4*(idx/(4*len(pairs)))
 	p, d := poolPaths[pr[0]], poolDocs[pr[1]]
 	other := poolPaths[(pr[0]+7)%len(poolPaths)].Text
 	sc := &Scenario{Version: 1, Property: "C19", Seed: uint64(idx), Mode: mode, Start: "2021-03-10T09:30:00Z",
@@ -809,12 +811,12 @@ func StormScenario(idx int) *Scenario {
 	longBad := long + " || @ > 99999999999999999999)"
 	longSyntax := long + " || )"
 	sc := &Scenario{Version: 1, Property: "C19", Seed: uint64(idx), Mode: "window", Start: "2021-03-10T09:30:00Z",
-		Paths: []string{longOK, longBad, longSyntax, "$.a", poolPaths[idx%len(poolPaths)].Text},
+		Paths: []string{longOK, longBad, longSyntax, []string{"$.a", "$.userName", "STRICT $.Abc"}[idx%3], poolPaths[idx%len(poolPaths)].Text},
 		Docs:  []DocSpec{{JSON: `[{"a1":1},{"a2":2}]`}}, Vars: []DocSpec{{JSON: poolVars[1]}}, Note: "parse storm family"}
 	kinds := [][]OpSpec{
 		{{Kind: "parse", Path: 0}, {Kind: "scan", Path: 3, Path2: 1}, {Kind: "parse", Path: 0}, {Kind: "unmarshal", Path: 3, Path2: 0}},
 		{{Kind: "scan", Path: 3, Path2: 1}, {Kind: "parse", Path: 0}, {Kind: "parse", Path: 2}, {Kind: "parse", Path: 0}},
-		{{Kind: "parse", Path: 0}, {Kind: "parse", Path: 4}, {Kind: "scan", Path: 3, Path2: 1}, {Kind: "parsequery", Path: 0, Doc: 0, Vars: -1}},
+		{{Kind: "parse", Path: 3}, {Kind: "parse", Path: 4}, {Kind: "scan", Path: 3, Path2: 1}, {Kind: "parse", Path: 0}},
 		{{Kind: "unmarshal", Path: 3, Path2: 1}, {Kind: "parse", Path: 0}, {Kind: "scan", Path: 4, Path2: 0}, {Kind: "parse", Path: 1}},
 	}
 	for t := 0; t < 8; t++ {
